@@ -91,6 +91,19 @@ claim('C07', 'proof',
       'Lean 4 proof (loop invariant by induction on fuel; C02 locality) + exact integer correspondence',
       'DESIGN.md section 5 C07')
 
+claim('C08', 'proof',
+      'Lean 4 theorems C08_* about the exact-rational model of the weights, score_trajectory (MSE/MAE) and the scorer '
+      'wiring: weight gamma^k on step k, zero beyond n_steps, IC rows stripped; perfect prediction has error 0 and no '
+      'prediction has negative error (so 0 is the best score); finite error_score is a floor; non-finite -> error_score '
+      'or raise. The multistep scorer misalignment is a theorem about the model (closed witness, decide +kernel) and a '
+      'KNOWN-FINDING on the code. Correspondence: weights, scores, error behaviour and make_scorer outputs compared '
+      'with exact rational arithmetic (1e-11).',
+      'Lean kernel + standard axioms + Mathlib ordered-field lemmas for Rat; metrics other than MSE/MAE are passed '
+      'through to scikit-learn (trusted); known finding F-score: make_scorer(multistep=True) compares prediction k with '
+      'truth k+1 (cannot be repaired: stored regression values pin it).',
+      'Lean 4 proof over exact rationals + correspondence; closed counter-example witness for the known finding',
+      'DESIGN.md section 5 C08')
+
 ALL = [f'C{i:02d}' for i in range(1, 21)]
 
 
